@@ -125,7 +125,7 @@ func simMesh(variant int) *meshconfig.MeshConfig {
 	m.ExtensionProviders = append(m.ExtensionProviders, &meshconfig.MeshConfig_ExtensionProvider{
 		Name: "als",
 		Provider: &meshconfig.MeshConfig_ExtensionProvider_EnvoyHttpAls{
-			EnvoyHttpAls: &meshconfig.MeshConfig_ExtensionProvider_EnvoyHttpGrpcV3LogProvider{Service: "b.example.com", Port: 80},
+			EnvoyHttpAls: &meshconfig.MeshConfig_ExtensionProvider_EnvoyHttpGrpcV3LogProvider{Service: alsHost, Port: 80},
 		},
 	})
 	if variant&1 != 0 {
@@ -172,7 +172,7 @@ func newWisInstance(t *testing.T, name string, o wisOpts) *wisInstance {
 		features.EnableXDSCaching = false
 	}
 	fds := xdsfake.NewFakeDiscoveryServer(f, xdsfake.FakeOptions{
-		DebounceTime:      o.debounceAfter,
+		DebounceTime:       o.debounceAfter,
 		Configs:            o.configs,
 		KubernetesObjects:  o.kubeObjects,
 		KubeClientModifier: o.kubeModifier,
@@ -328,6 +328,27 @@ func (w *wis) hasParkedSend(c *xdsClient) bool {
 		return c.dstr.ParkedSend() != nil
 	}
 	return c.sotw.ParkedSend() != nil
+}
+
+// parkedDesc describes the response parked in Send (type, nonce, resource names) for messages.
+func (w *wis) parkedDesc(c *xdsClient) string {
+	if !w.hasParkedSend(c) {
+		return "none"
+	}
+	if c.delta {
+		p := *c.dstr.ParkedSend()
+		var names []string
+		for _, r := range p.Resources {
+			names = append(names, r.Name)
+		}
+		return fmt.Sprintf("%s nonce=%.8s resources=%v removed=%v", shortType(p.TypeUrl), p.Nonce, names, p.RemovedResources)
+	}
+	p := *c.sotw.ParkedSend()
+	var names []string
+	for _, a := range p.Resources {
+		names = append(names, resourceName(p.TypeUrl, a))
+	}
+	return fmt.Sprintf("%s version=%s nonce=%.8s resources=%v", shortType(p.TypeUrl), p.VersionInfo, p.Nonce, names)
 }
 
 func (w *wis) canDeliverReq(c *xdsClient) bool {
